@@ -1026,3 +1026,31 @@ class UpdateNumprocs:
 
     def exc_RPCError_rejected_cleanly(self, exc):
         return rejected_cleanly(exc)
+
+
+# ------------------------------------------------------------------------------------------ status queries
+@contract('rpcinterface:RPCInterface.get_application_info', props=['C17'])
+class GetApplicationInfo:
+    """'status queries from DISTRIBUTION on ... otherwise raises BAD_SUPVISORS_STATE without any effect'; unknown
+    application BAD_NAME; a status query never triggers anything"""
+    raises = ('RPCError',)
+    returns = 'Payload'
+
+    def pre_valid(self):
+        return cmd_valid(self)
+
+    def post_served_only_when_acceptable(self, application_name, old):
+        return fsm_state(old.self) in FROM_DISTRIBUTION and known_app(old.self, application_name)
+
+    def post_read_only(self):
+        return no_effect() and unchanged()
+
+    def exc_RPCError_bad_state(self, exc, old):
+        return (exc.code == BAD_STATE) == (fsm_state(old.self) not in FROM_DISTRIBUTION)
+
+    def exc_RPCError_bad_name(self, application_name, exc, old):
+        return (exc.code in (BAD_STATE, Faults.BAD_NAME)
+                and implies(exc.code == Faults.BAD_NAME, not known_app(old.self, application_name)))
+
+    def exc_RPCError_rejected_cleanly(self, exc):
+        return no_effect() and unchanged()
